@@ -6,7 +6,7 @@ use crate::gen;
 use crate::ops::{Facade, Op, OpSpec, Outcome};
 use crate::rng::{self, Rng};
 use crate::sup::{Dec, Hooks, OpRecord, Plan, RunCtx, RunOut, Seeded};
-use crate::world::{Entry, WorldSpec};
+use crate::world::{Entry, Mutation, WorldSpec};
 use serde_json::{json, Map, Value};
 
 pub const PER_BATCH: u64 = 300;
@@ -24,6 +24,15 @@ pub fn plan(tier: &str, seed: u64) -> Vec<Batch> {
         }
         for i in 0..conc {
             v.push(Batch { check: "C13".into(), phase: "concurrent".into(), uni: uni.clone().workers(4), seed, lo: i * PER_BATCH, hi: (i + 1) * PER_BATCH, fresh: false, tier: tier.into(), extra: Value::Null });
+        }
+        // "never follows links", with an attacker that swaps a directory of the
+        // subtree for a link while the call runs: every (operation, swap, window)
+        let n = (link_ops().len() * link_swaps().len()) as u64;
+        let per = 6;
+        let mut lo = 0;
+        while lo < n {
+            v.push(Batch { check: "C13".into(), phase: "attacked".into(), uni: uni.clone(), seed, lo, hi: (lo + per).min(n), fresh: false, tier: tier.into(), extra: Value::Null });
+            lo += per;
         }
         for sc in 0..conc_scenarios().len() as u64 {
             let shards = if uni.no_openat2 { 8 } else { 4 };
@@ -43,6 +52,117 @@ pub fn plan(tier: &str, seed: u64) -> Vec<Batch> {
         }
     }
     v
+}
+
+/// World of the attacked phase: a subtree to remove, and directories that are
+/// *not* part of it (a sibling inside the root, a directory outside the root)
+/// which a followed link would lead into.
+pub fn links_world() -> WorldSpec {
+    let mut w = WorldSpec::default();
+    w.push(Entry::dir("root"));
+    w.push(Entry::file("root/victim/x", "victim-x"));
+    w.push(Entry::file("root/victim/sub/y", "victim-y"));
+    w.push(Entry::file("root/victim/sub/deep/z", "victim-z"));
+    w.push(Entry::file("root/victim/w", "victim-w"));
+    w.push(Entry::link("root/victim/inlink", "../sibling"));
+    w.push(Entry::link("root/victim/sub/outlink", "/mnt/w/outside/target"));
+    w.push(Entry::file("root/sibling/precious1", "PRECIOUS-1"));
+    w.push(Entry::file("root/sibling/d/precious2", "PRECIOUS-2"));
+    w.push(Entry::file("root/keep/file", "KEEP"));
+    w.push(Entry::file("outside/target/precious3", "PRECIOUS-3"));
+    w.push(Entry::file("outside/target/d/precious4", "PRECIOUS-4"));
+    w.push(Entry::dir("outside/landing"));
+    w
+}
+
+pub fn link_ops() -> Vec<OpSpec> {
+    vec![
+        OpSpec::new(Op::RemoveAll { path: "victim".into() }),
+        OpSpec::new(Op::RemoveAll { path: "victim/sub".into() }),
+        OpSpec::new(Op::RemoveAll { path: "keep/../victim".into() }).c(),
+    ]
+}
+
+/// (directory of the subtree that is exchanged for a link, body of the link)
+pub fn link_swaps() -> Vec<Mutation> {
+    let mut v = Vec::new();
+    for (path, up) in [("root/victim", ""), ("root/victim/sub", "../"), ("root/victim/sub/deep", "../../")] {
+        for target in [format!("{up}sibling"), "/mnt/w/outside/target".to_string(), "/mnt/w/root/sibling".to_string(), format!("{up}../outside/target"), format!("{up}sibling/d")] {
+            let park = format!("outside/landing/parked-{}-{}", path.replace('/', "_"), v.len());
+            v.push(Mutation::SwapInSymlink { path: path.into(), target, park });
+        }
+    }
+    v
+}
+
+const PROTECTED: [&str; 3] = ["root/sibling", "root/keep", "outside/target"];
+
+struct Prot {
+    pre: Vec<String>,
+}
+impl Hooks for Prot {
+    fn begin_op(&mut self, ctx: &mut RunCtx, _t: usize, _k: usize, _s: &OpSpec) {
+        self.pre = PROTECTED.iter().flat_map(|p| ctx.world.full_snapshot(p)).collect();
+    }
+}
+
+fn run_attacked(u: &mut Universe, b: &Batch, idx: u64, st: &mut Stats) -> bool {
+    let swaps = link_swaps();
+    let oi = idx as usize / swaps.len();
+    let mi = idx as usize % swaps.len();
+    let mk = |script: Vec<Dec>| {
+        let mut c = Case::new("C13", "attacked", b.uni.clone());
+        c.world = Some(links_world());
+        c.jobs = vec![vec![link_ops()[oi].clone()]];
+        c.plan.script = script;
+        c
+    };
+    let mut h = Prot { pre: Vec::new() };
+    let out0 = run_case(u, &mk(vec![]), &mut h, false);
+    if let Some(e) = &out0.harness_error {
+        st.harness_errors.push(format!("attacked {idx}: {e}"));
+        return false;
+    }
+    let wins: Vec<usize> = out0.trace.iter().filter(|e| e.lib && e.op == Some(0) && e.nr != crate::seam::HYPERCALL_NR && e.nr != libc::SYS_futex).map(|e| e.step).collect();
+    for wd in wins {
+        let case = mk(vec![Dec { step: wd, attack: vec![swaps[mi].clone()], ..Default::default() }]);
+        run_attacked_case(u, &case, st);
+        if u.poisoned {
+            return false;
+        }
+        st.count("attacked.windows_covered", 1);
+    }
+    true
+}
+
+fn run_attacked_case(u: &mut Universe, case: &Case, st: &mut Stats) {
+    let mut h = Prot { pre: Vec::new() };
+    let out = run_case(u, case, &mut h, false);
+    if let Some(e) = &out.harness_error {
+        st.harness_errors.push(format!("attacked: {e}"));
+        return;
+    }
+    let w = crate::world::World { labels: Default::default(), dev: 0, root_ino: (0, 0), created_seq: 0 };
+    let post: Vec<String> = PROTECTED.iter().flat_map(|p| w.full_snapshot(p)).collect();
+    st.evaluations += 1;
+    st.merge_runout(&out);
+    if out.records.iter().any(|r| r.attacks_inside > 0) {
+        st.nontrivial.insert(case.hash());
+    }
+    let mut found: Vec<(String, String)> = Vec::new();
+    if h.pre != post {
+        let gone: Vec<&String> = h.pre.iter().filter(|l| !post.contains(l)).take(4).collect();
+        found.push(("followed-link-and-removed-target".into(), format!("after remove_all with a directory of the subtree swapped for a link, entries that were never part of the subtree changed: {gone:?}")));
+    }
+    for r in &out.records {
+        if let Outcome::Panic(m) = &r.outcome {
+            found.push(("panic".into(), m.clone()));
+        }
+    }
+    for (clause, detail) in found {
+        let v = mk_violation(case, &out, "C13", &clause, "remove_all", detail);
+        st.violation(&v);
+    }
 }
 
 pub fn deep_tree() -> WorldSpec {
@@ -466,11 +586,18 @@ pub fn run(u: &mut Universe, b: &Batch, st: &mut Stats) {
                     Some(c) => c,
                     None => return,
                 };
-                if case.jobs.len() > 1 {
+                if case.phase == "attacked" {
+                    run_attacked_case(u, &case, st);
+                } else if case.jobs.len() > 1 {
                     let same = case.extra["same"].as_bool().unwrap_or(true);
                     run_conc(u, &case, st, false, same);
                 } else {
                     run_seq(u, &case, st, false);
+                }
+            }
+            "attacked" => {
+                if !run_attacked(u, b, idx, st) {
+                    return;
                 }
             }
             "sequential" => {
@@ -543,7 +670,7 @@ pub fn finalise(tier: &str, seed: u64, res: coord::CheckResult) -> i32 {
     let c = &res.stats.counters;
     extra.insert(
         "enumeration".into(),
-        json!({"scenarios": conc_scenarios().len(), "schedules_total": c.get("preempt.schedules_total"), "schedules_run": c.get("preempt.schedules_run"),
+        json!({"attacked_windows": c.get("attacked.windows_covered"), "scenarios": conc_scenarios().len(), "schedules_total": c.get("preempt.schedules_total"), "schedules_run": c.get("preempt.schedules_run"),
                "bound": if tier == "thorough" { "<=1 preemption everywhere, plus every third <=2-preemption schedule on K" } else { "<=1 preemption" }}),
     );
     coord::finalise(
@@ -551,7 +678,7 @@ pub fn finalise(tier: &str, seed: u64, res: coord::CheckResult) -> i32 {
         tier,
         seed,
         "exploration",
-        "sequential: one evaluation = one remove_all on a generated or canonical tree (links to siblings, parents, outside; hard links; fifos; all path spellings incl. final '.'/'..' and trailing '/'), expectation from raw kernel queries before the call (in-root parent + final name), whole-world snapshot diff afterwards; concurrent: 2-4 caller threads remove the same path (all must succeed) or a path and its ancestor (frame condition and termination only) under a seeded scheduler; preempt: every schedule with at most one preemption for three canonical scenarios; non-trivial = (sequential) the call removed something / (concurrent) a context switch away from the default order happened; distinct = hash of (case, interleaving)",
+        "sequential: one evaluation = one remove_all on a generated or canonical tree (links to siblings, parents, outside; hard links; fifos; all path spellings incl. final '.'/'..' and trailing '/'), expectation from raw kernel queries before the call (in-root parent + final name), whole-world snapshot diff afterwards; concurrent: 2-4 caller threads remove the same path (all must succeed) or a path and its ancestor (frame condition and termination only) under a seeded scheduler; preempt: every schedule with at most one preemption for three canonical scenarios; attacked: one remove_all (3 spellings, Rust/C) on a tree with a sibling directory inside the root and a directory outside it, while the attacker exchanges one directory of the subtree for a symlink (15 swaps: victim / sub / deep x relative, absolute, in-root and outside targets) at every system-call window of the call - the directories that were never part of the subtree must be byte-for-byte unchanged afterwards; non-trivial = (sequential) the call removed something / (concurrent) a context switch away from the default order happened; distinct = hash of (case, interleaving)",
         res,
         extra,
         vec!["preemption only at trapped system calls".into(), "link counts are not compared (removing one name of a hard-linked file changes the count at the other)".into()],
